@@ -9,6 +9,7 @@
 #include <amgcl/coarsening/smoothed_aggregation.hpp>
 #include <amgcl/coarsening/smoothed_aggr_emin.hpp>
 #include <amgcl/coarsening/ruge_stuben.hpp>
+#include <amgcl/coarsening/as_scalar.hpp>
 #include <amgcl/relaxation/spai0.hpp>
 #include <amgcl/relaxation/gauss_seidel.hpp>
 #include <amgcl/relaxation/ilu0.hpp>
@@ -296,6 +297,8 @@ static std::shared_ptr<crsd> expand_any(const amgcl::backend::crs<V, ptrdiff_t, 
 static std::complex<double> mk_val(vr::rng &g, double re, std::complex<double>*) { return std::complex<double>(re, re * (0.2 + 0.6 * g.unit()) * (g.coin() ? 1 : -1)); }
 static BV2 mk_val(vr::rng &g, double re, BV2*) { BV2 v; v(0,0) = re; v(1,1) = re * (0.6 + 0.3 * g.unit()); v(0,1) = 0.3 * re * g.unit(); v(1,0) = -0.2 * re * g.unit(); return v; }
 
+template <class V, class CO, class VM>
+static void valued_levels(CO &c, std::shared_ptr<VM> A, const char *cname, const char *vname, bool adjoint, double over_interp);
 template <class V, template <class> class C>
 static void valued_case(const char *cname, const char *vname, std::shared_ptr<crsd> As, vr::rng &g, bool adjoint, double over_interp) {
     typedef amgcl::backend::builtin<V> VB; typedef amgcl::backend::crs<V, ptrdiff_t, ptrdiff_t> VM;
@@ -304,6 +307,25 @@ static void valued_case(const char *cname, const char *vname, std::shared_ptr<cr
     A->set_nonzeros(A->scan_row_sizes());
     for (ptrdiff_t p = 0; p < As->ptr[As->nrows]; ++p) { A->col[p] = As->col[p]; A->val[p] = mk_val(g, As->val[p], (V*)0); }
     C<VB> c((typename C<VB>::params()));
+    valued_levels<V>(c, A, cname, vname, adjoint, over_interp);
+}
+// block-valued matrices through coarsening::as_scalar<C> (the coarsening works on the scalar view, aggr.block_size = 2
+// keeps the two unknowns of a node together; the re-scaling of plain aggregation is that of the scalar parameters)
+template <template <class> class C>
+static void as_scalar_case(const char *cname, std::shared_ptr<crsd> As, vr::rng &g, bool plain_aggr) {
+    typedef amgcl::backend::builtin<BV2> VB; typedef amgcl::backend::crs<BV2, ptrdiff_t, ptrdiff_t> VM;
+    auto A = std::make_shared<VM>(); A->set_size(As->nrows, As->ncols, true);
+    for (size_t i = 0; i < As->nrows; ++i) A->ptr[i+1] = As->ptr[i+1] - As->ptr[i];
+    A->set_nonzeros(A->scan_row_sizes());
+    for (ptrdiff_t p = 0; p < As->ptr[As->nrows]; ++p) { A->col[p] = As->col[p]; A->val[p] = mk_val(g, As->val[p], (BV2*)0); }
+    typedef typename amgcl::coarsening::as_scalar<C>::template type<VB> CS;
+    typename CS::params prm; prm.aggr.block_size = 2;
+    double oi = 0.0; if (plain_aggr) { oi = g.coin() ? 1.5 : 2.0; set_over_interp(prm, oi); }
+    CS c(prm);
+    valued_levels<BV2>(c, A, cname, "as_scalar-block2", true, oi);
+}
+template <class V, class CO, class VM>
+static void valued_levels(CO &c, std::shared_ptr<VM> A, const char *cname, const char *vname, bool adjoint, double over_interp) {
     std::shared_ptr<VM> cur = A;
     for (int lvl = 0; lvl < 3 && cur->nrows > 4; ++lvl) {
         std::shared_ptr<VM> P, R, Ac;
@@ -374,6 +396,9 @@ int main(int argc, char **argv) {
             valued_case<std::complex<double>, amgcl::coarsening::aggregation>("aggregation", "complex", As, g, true, 1.5);
             valued_case<BV2, amgcl::coarsening::smoothed_aggregation>("smoothed_aggregation", "block2", As, g, true, 0.0);
             valued_case<BV2, amgcl::coarsening::aggregation>("aggregation", "block2", As, g, true, 2.0);
+            vr::rng g2(vr::env_seed() * 131 + r + 77);     // own stream: the cases that follow are unchanged
+            as_scalar_case<amgcl::coarsening::aggregation>("aggregation", As, g2, true);
+            as_scalar_case<amgcl::coarsening::smoothed_aggregation>("smoothed_aggregation", As, g2, false);
         }
     } else if (mode == "rebuild") {
         int reps = th ? 10 : 3;
